@@ -17,8 +17,9 @@ Schemas == ndJsonDeserialize("schemas.ndjson")
 Cases   == ndJsonDeserialize("cases.ndjson")
 Trace   == ndJsonDeserialize("events.ndjson")
 
-VARIABLES l, nOK, nKnown, nViol, nNA
-vars == <<l, nOK, nKnown, nViol, nNA>>
+VARIABLES l, nOK, nKnown, nViol, nNA,
+          lastU      \* the most recent UnmarshalBebop observation (C09: MustUnmarshalBebop must agree with it)
+vars == <<l, nOK, nKnown, nViol, nNA, lastU>>
 
 Has(e, f) == f \in DOMAIN e
 OutOf(e) == IF Has(e, "out") THEN e.out ELSE <<>>
@@ -122,6 +123,13 @@ JudgeC01(e) ==
 JudgeC09(e) ==
   LET c == CaseOf(e)  S == SchemaOf(c)  t == TypeOf(c) IN
   CASE e.ev = "enc" -> JudgeC03(e)
+    [] e.ev = "dec" /\ Has(c, "want") ->
+        \* bytes of a newer schema version (evolve universe): the unchecked decoder must agree with the checked one
+        IF e.api # "MustUnmarshalBebop" THEN NAv
+        ELSE IF lastU.cid # e.cid \/ lastU.in # InOf(e) \/ lastU.res # "nil" THEN NAv
+        ELSE FirstBad(<<
+               <<e.res = "nil", "MustUnmarshalBebop fails on a valid encoding that UnmarshalBebop accepts: " \o e.res>>,
+               <<e.res # "nil" \/ ValOf(e) = lastU.val, "MustUnmarshalBebop disagrees with UnmarshalBebop on a valid encoding (bytes of a peer's schema version)">> >>)
     [] e.ev = "dec" ->
         FirstBad(<<
           <<e.res = "nil", e.api \o " fails on a valid encoding under options " \o ToString(c.opts) \o ": " \o e.res>>,
@@ -236,7 +244,8 @@ Judge(e) ==
     [] OTHER -> NAv
 
 -----------------------------------------------------------------------------
-Init == l = 1 /\ nOK = 0 /\ nKnown = 0 /\ nViol = 0 /\ nNA = 0
+NoU == [cid |-> 0, res |-> "", val |-> <<>>, in |-> <<>>]
+Init == l = 1 /\ nOK = 0 /\ nKnown = 0 /\ nViol = 0 /\ nNA = 0 /\ lastU = NoU
 
 Report(j, e) ==
   PrintT("@@V " \o ToJson([l |-> l, cid |-> e.cid, m |-> e.m, ev |-> e.ev, verdict |-> j.v,
@@ -246,6 +255,8 @@ Step ==
   /\ l <= Len(Trace)
   /\ LET e == Trace[l]  j == Judge(e) IN
      /\ l' = l + 1
+     /\ lastU' = IF e.ev = "dec" /\ e.api = "UnmarshalBebop"
+                 THEN [cid |-> e.cid, res |-> e.res, val |-> ValOf(e), in |-> InOf(e)] ELSE lastU
      /\ nOK'    = nOK    + (IF j.v = "OK" THEN 1 ELSE 0)
      /\ nNA'    = nNA    + (IF j.v = "NA" THEN 1 ELSE 0)
      /\ nKnown' = nKnown + (IF j.v = "KNOWN" THEN 1 ELSE 0)
